@@ -186,7 +186,7 @@ func c09Oracle(p *Plan) *Verdict {
 		b := st.Backend[0]
 		rp := &rc.Backend.Resp
 		scripted := len(b.Undecodable) == 0 // otherwise the backend answered with its own error
-		if scripted && (rp.CutAt > 0 || rp.DeclareCL != "" || p.Note == "resp-flag" || p.Note == "resp-len" || p.Note == "resp-bitflip" || rp.OmitEnd) {
+		if scripted && (rp.CutAt > 0 || rp.DeclareCL != "" || p.Note == "resp-flag" || p.Note == "resp-len" || p.Note == "resp-bitflip" || p.Note == "resp-end-garbage" || p.Note == "resp-payload" || rp.OmitEnd) {
 			respMalformed = respFaultMalformed(p, b, st)
 		}
 		if respMalformed != "" {
@@ -197,7 +197,7 @@ func c09Oracle(p *Plan) *Verdict {
 		}
 	}
 	// ---- the response itself must be terminated and well-formed
-	payloadFault := p.Note == "resp-bitflip" || p.Note == "req-bitflip"
+	payloadFault := p.Note == "resp-bitflip" || p.Note == "req-bitflip" || p.Note == "resp-payload" || p.Note == "req-payload"
 	if rp := &rc.Backend.Resp; p.Note == "resp-cut" && len(st.Backend) == 1 && !st.Backend[0].Stream && rp.DeclareCL == "" {
 		// an unframed body without a declared length that stops early is, on the wire, a complete body whose compressed
 		// payload is corrupt: the same thing as a flipped payload bit
@@ -210,7 +210,7 @@ func c09Oracle(p *Plan) *Verdict {
 		}
 		seen := map[string]bool{}
 		for _, prob := range o.Problems {
-			if payloadFault && side == "response-fault" && full["rpath"] == "reframe" && strings.Contains(prob, "does not decompress") {
+			if payloadFault && side == "response-fault" && full["rpath"] == "reframe" && (strings.Contains(prob, "does not decompress") || (p.Note == "resp-payload" && strings.Contains(prob, "does not decode as"))) {
 				// the re-framing path does not look inside payloads: the corrupt payload arrives, well framed, and the client's own decompressor rejects it
 				continue
 			}
@@ -247,17 +247,19 @@ func relayedVerbatim(p *Plan, st *rpcState) bool {
 	rc := &p.RPCs[0]
 	rp := &rc.Backend.Resp
 	var faulty []byte
+	emptyMeant := false
 	switch {
-	case p.Note == "resp-bitflip":
+	case p.Note == "resp-bitflip" || p.Note == "resp-payload":
 		for _, m := range rp.Msgs {
 			if m.RawPayload != nil {
 				faulty = m.RawPayload
+				emptyMeant = len(faulty) == 0 // an empty payload the backend's codec does not take for a message
 			}
 		}
 	case p.Note == "resp-cut" && len(st.respPayloads) == 1 && rp.CutAt > 0 && rp.CutAt < len(st.respPayloads[0]):
 		faulty = st.respPayloads[0][:rp.CutAt]
 	}
-	if len(faulty) == 0 || st.rw == nil || len(st.Backend) != 1 {
+	if (len(faulty) == 0 && !emptyMeant) || st.rw == nil || len(st.Backend) != 1 {
 		return false
 	}
 	got := st.rw.Visible
@@ -265,7 +267,12 @@ func relayedVerbatim(p *Plan, st *rpcState) bool {
 		return bytes.Equal(got, faulty)
 	}
 	frames, _ := splitFrames(got)
-	return len(frames) >= 1 && frames[0].Flags&^1 == 0 && bytes.Equal(frames[0].Payload, faulty)
+	for _, f := range frames {
+		if f.Flags&^1 == 0 && bytes.Equal(f.Payload, faulty) {
+			return true
+		}
+	}
+	return false
 }
 
 // respFaultMalformed decides, from the script, whether the bytes the backend put on the wire are malformed for its protocol.
@@ -325,6 +332,18 @@ func respFaultMalformed(p *Plan, b *BackendObs, st *rpcState) string {
 		return ""
 	case p.Note == "resp-len":
 		return "declared frame length does not match the payload"
+	case p.Note == "resp-end-garbage":
+		return "the end-of-stream frame does not carry an end of stream"
+	case p.Note == "resp-payload":
+		_, md := planMethod(p, 0)
+		for _, m := range rp.Msgs {
+			if m.RawPayload != nil {
+				if err := refUnmarshal(b.Codec, m.RawPayload, newMessageFor(md.Output())); err != nil {
+					return "payload does not decode in the backend's codec: " + err.Error()
+				}
+			}
+		}
+		return "" // the variant happens to be a valid message
 	case p.Note == "resp-bitflip":
 		for _, m := range rp.Msgs {
 			if m.RawPayload != nil {
@@ -338,6 +357,30 @@ func respFaultMalformed(p *Plan, b *BackendObs, st *rpcState) string {
 		return "declared Content-Length " + rp.DeclareCL + " not honoured"
 	}
 	return ""
+}
+
+// c09PayloadVariants: replacements for one uncompressed message payload that keep the envelope (or the declared length)
+// truthful: only the payload itself is wrong. Whether a variant still decodes is decided by the reference decoder.
+func c09PayloadVariants(payload []byte) [][]byte {
+	out := [][]byte{{0xff}, {}, append(append([]byte(nil), payload...), 0x80)}
+	if len(payload) > 1 {
+		out = append(out, append([]byte(nil), payload[:len(payload)-1]...))
+		flipped := append([]byte(nil), payload...)
+		flipped[0] ^= 0x07 // another wire type / another opening character
+		out = append(out, flipped)
+	}
+	return out
+}
+
+// c09EndVariants: end-of-stream payloads no client can take for a success (Connect: not an end-stream JSON object;
+// gRPC-Web: a trailer block without a usable grpc-status).
+func c09EndVariants(protocol string) [][]byte {
+	if protocol == ProtoConnect {
+		return [][]byte{[]byte("{"), []byte("not json"), []byte(`{"error":17}`), {}, []byte("[]"), {0xff, 0x00}, []byte(`{"error":{"code":"nope"}`),
+			// a complete JSON value that is not the whole payload
+			[]byte(`{}x`), []byte(`{}{"error":{"code":"internal"}}`), []byte(`{"metadata":{}},"error":{"code":"internal"}}`)}
+	}
+	return [][]byte{{}, []byte("grpc-status 0\r\n"), []byte("grpc-message: fine\r\n"), []byte("grpc-status: abc\r\n"), {0xff, 0x00}, []byte("grpc-status:\r\n")}
 }
 
 // ---- corpus and enumeration
@@ -472,6 +515,14 @@ func c09Mutations(base *Plan, sample *Chooser, keep float64) []*Plan {
 				d := d
 				add("req-len", func(p *Plan) { p.RPCs[0].Client.Msgs[fi].LenDelta = d })
 			}
+			if body[s0] == 0 && rc.Client.Form != FormConnectGet {
+				for _, raw := range c09PayloadVariants(body[s0+5 : end]) {
+					raw := raw
+					add("req-payload", func(p *Plan) {
+						p.RPCs[0].Client.Msgs[fi].RawPayload, p.RPCs[0].Client.Msgs[fi].HasRaw, p.RPCs[0].Client.Msgs[fi].Compressed = raw, true, false
+					})
+				}
+			}
 			if body[s0] == 1 {
 				payload := append([]byte(nil), body[s0+5:end]...)
 				for bit := 0; bit < len(payload)*8; bit++ {
@@ -489,6 +540,12 @@ func c09Mutations(base *Plan, sample *Chooser, keep float64) []*Plan {
 		for _, d := range []string{"+1", "-1", "+5"} {
 			d := d
 			add("req-cl", func(p *Plan) { p.RPCs[0].Client.DeclareCL = d })
+		}
+		if rc.Client.Compression == "" && rc.Client.Form != FormConnectGet {
+			for _, raw := range c09PayloadVariants(body) {
+				raw := raw
+				add("req-payload", func(p *Plan) { p.RPCs[0].Client.RawBody, p.RPCs[0].Client.HasRawBody = raw, true })
+			}
 		}
 		if rc.Client.Compression != "" {
 			for bit := 0; bit < len(body)*8; bit++ {
@@ -511,6 +568,7 @@ func c09Mutations(base *Plan, sample *Chooser, keep float64) []*Plan {
 			add("resp-cut", func(p *Plan) { p.RPCs[0].Backend.Resp.CutAt = off })
 		}
 		add("resp-omit-end", func(p *Plan) { p.RPCs[0].Backend.Resp.OmitEnd = true })
+		c09RespExtras(add, rc, b, dry.RPCs[0])
 		if b.Protocol == ProtoGRPC {
 			// gRPC tells the outcome out of band: a body that stops early under trailers that still say OK
 			for off := 1; off < n; off++ {
@@ -560,6 +618,39 @@ func c09Mutations(base *Plan, sample *Chooser, keep float64) []*Plan {
 		}
 	}
 	return out
+}
+
+// c09RespExtras: faults in what the backend says rather than in how much of it arrives: an end-of-stream frame whose
+// payload is not an end of stream (protocols that tell the outcome in the body), and message payloads that the backend's
+// own codec cannot decode although their envelope (or the body's length) is truthful.
+func c09RespExtras(add func(string, func(*Plan)), rc *RPCPlan, b *BackendObs, dry *rpcState) {
+	if b.Stream && (b.Protocol == ProtoConnect || b.Protocol == ProtoGRPCWeb) {
+		for _, raw := range c09EndVariants(b.Protocol) {
+			raw := raw
+			add("resp-end-garbage", func(p *Plan) { p.RPCs[0].Backend.Resp.EndRaw, p.RPCs[0].Backend.Resp.HasEndRaw = raw, true })
+		}
+		// the body goes on after a well-formed end of stream (in the same Write, or in the next): whether the RPC still
+		// counts as a success is left open; it has to end, and end well-formed
+		for _, raw := range [][]byte{{0}, envelope(0, []byte{0x18, 0x07}), envelope(2, []byte("{}")), envelope(0x80, nil)} {
+			for _, mode := range []string{"whole", "frames"} {
+				raw, mode := raw, mode
+				add("resp-after-end", func(p *Plan) { p.RPCs[0].Backend.Resp.AfterEnd, p.RPCs[0].Backend.Resp.WriteMode = raw, mode })
+			}
+		}
+	}
+	for mi := range rc.Backend.Resp.Msgs {
+		mi := mi
+		if mi >= len(dry.respPayloads) || (dry.respComp != "" && rc.Backend.Resp.Msgs[mi].Compressed) {
+			continue
+		}
+		for _, raw := range c09PayloadVariants(dry.respPayloads[mi]) {
+			raw := raw
+			add("resp-payload", func(p *Plan) {
+				m := &p.RPCs[0].Backend.Resp.Msgs[mi]
+				m.RawPayload, m.HasRaw, m.Compressed = raw, true, false
+			})
+		}
+	}
 }
 
 // c09Boundary lists the cuts that land on or next to a frame boundary of one scenario: inside an envelope prefix, right
@@ -639,6 +730,28 @@ func c09Boundary(base *Plan) []*Plan {
 			}
 		}
 	}
+	if rc.Client.Form != FormConnectGet && rc.Client.Compression == "" {
+		if enveloped(rc.Client.Form) {
+			s0 := 0
+			for fi, end := range st.rendered.Bounds {
+				fi := fi
+				if body[s0] == 0 {
+					for _, raw := range c09PayloadVariants(body[s0+5 : end]) {
+						raw := raw
+						add("req-payload", func(p *Plan) {
+							p.RPCs[0].Client.Msgs[fi].RawPayload, p.RPCs[0].Client.Msgs[fi].HasRaw, p.RPCs[0].Client.Msgs[fi].Compressed = raw, true, false
+						})
+					}
+				}
+				s0 = end
+			}
+		} else {
+			for _, raw := range c09PayloadVariants(body) {
+				raw := raw
+				add("req-payload", func(p *Plan) { p.RPCs[0].Client.RawBody, p.RPCs[0].Client.HasRawBody = raw, true })
+			}
+		}
+	}
 	dry := Run(base)
 	if len(dry.RPCs) == 1 && len(dry.RPCs[0].Backend) == 1 {
 		d := dry.RPCs[0]
@@ -663,6 +776,7 @@ func c09Boundary(base *Plan) []*Plan {
 			}
 		}
 		add("resp-omit-end", func(p *Plan) { p.RPCs[0].Backend.Resp.OmitEnd = true })
+		c09RespExtras(add, rc, d.Backend[0], d)
 		if !d.Backend[0].Stream {
 			// a declared Content-Length that the body does not honour, by one byte either way
 			for _, dl := range []string{"+1", "-1"} {
@@ -690,7 +804,7 @@ func init() {
 		ID:    "C09",
 		Level: "fault_enumeration",
 		Rule: "a corpus of small scenarios (4 RPC client forms x method shapes x 3 RPC target protocols x 5 codec/compression variants, plus REST clients against each RPC target and RPC clients against a REST-only service = every adapter path, 1-2 messages each way); on each, single faults are enumerated: " +
-			"every byte offset at which the request body can end (clean EOF and connection error), every offset at which the backend can stop writing (for gRPC backends also under trailers that still say OK), missing end of stream, every other value 0..255 of every envelope flag byte in both directions, " +
+			"every byte offset at which the request body can end (clean EOF and connection error), every offset at which the backend can stop writing (for gRPC backends also under trailers that still say OK), missing end of stream, an end-of-stream frame whose payload is not an end of stream, data after the end-of-stream frame, message payloads that do not decode in their codec under a truthful envelope (both directions), every other value 0..255 of every envelope flag byte in both directions, " +
 			"every single-bit flip of every compressed payload, frame lengths +-1/+3/huge, Content-Length +-1/+5. thorough enumerates all of them; quick draws a seeded sample of the same space, half of it from the cuts next to a frame boundary, the flag values that carry meaning in some protocol, and lengths off by one. " +
 			"oracle: an independent strict parser decides whether the faulted stream is malformed; if so the client must see a non-OK outcome, the backend's completely decoded messages must be a prefix of the valid ones, " +
 			"and the response must be terminated and well-formed; no hang (quiescence). distinct = (scenario class, fault kind, schedule hash); non-trivial = a fault was placed and the run executed",
